@@ -38,6 +38,7 @@ async def copyfileobj(
     dst: StreamWrapper,
     length: int | None = None,
     bufsize: int | None = None,
+    exception: type[Exception] = OSError,
 ) -> None:
     bufsize = bufsize or 16 * 1024
     if length == 0:
@@ -47,19 +48,26 @@ async def copyfileobj(
         return
     blocks, remainder = divmod(length, bufsize)
     for _ in range(blocks):
-        await write(src, dst, bufsize)
+        await write(src, dst, bufsize, exception)
     if remainder != 0:
-        await write(src, dst, remainder)
+        await write(src, dst, remainder, exception)
     return
 
 
-async def write(src: StreamWrapper, dst: StreamWrapper, bufsize: int) -> None:
+async def write(
+    src: StreamWrapper,
+    dst: StreamWrapper,
+    bufsize: int,
+    exception: type[Exception] = OSError,
+) -> None:
     while bufsize > 0:
         buf = (
             await src.read(bufsize)
             if isinstance(src, StreamWrapper)
             else src.read(bufsize)
         )
+        if len(buf) == 0:
+            raise exception("unexpected end of data")
         bufsize -= len(buf)
         await dst.write(buf) if isinstance(dst, StreamWrapper) else dst.write(buf)
 
@@ -283,6 +291,8 @@ class FileStreamReaderWrapper(StreamWrapper):
         if data:
             await self.stream.seek(offset + (self.position - start))
             buf = await self.stream.read(length)
+            if len(buf) != length:
+                raise tarfile.ReadError("unexpected end of data")
             self.position += len(buf)
             return buf
         else:
@@ -1067,11 +1077,15 @@ class AioTarStream:
             if tarinfo.sparse is not None:
                 for offset, size in tarinfo.sparse:
                     target.seek(offset)
-                    await copyfileobj(self.stream, target, size, bufsize)
+                    await copyfileobj(
+                        self.stream, target, size, bufsize, tarfile.ReadError
+                    )
                 target.seek(tarinfo.size)
                 target.truncate()
             else:
-                await copyfileobj(self.stream, target, tarinfo.size, bufsize)
+                await copyfileobj(
+                    self.stream, target, tarinfo.size, bufsize, tarfile.ReadError
+                )
 
     async def makelink(self, tarinfo: AioTarInfo, targetpath: StrOrBytesPath) -> None:
         try:
@@ -1117,7 +1131,9 @@ class AioTarStream:
         if self.offset != self.stream.tell():
             if self.offset == 0:
                 return None
-            await self.stream.seek(self.offset)
+            await self.stream.seek(self.offset - 1)
+            if not await self.stream.read(1):
+                raise tarfile.ReadError("unexpected end of data")
         tarinfo = None
         while True:
             try:
